@@ -561,6 +561,22 @@ def check_cell(ctx, case):
         got = f.volume(a, b)
         c = a
         al = be = ga = 90.
+    # partially given angles: documented defaults (alpha defaults to 90, beta and gamma default to alpha)
+    elif style == 'alpha-only':           # rhombohedral
+        al = be = ga = min(al, 119.)
+        got = f.volume(a, b, c, al) if case['a'] < 10 else f.volume(a=a, b=b, c=c, alpha=al)
+    elif style == 'gamma-kw':             # hexagonal / monoclinic, the usual way to give such a cell
+        got = f.volume(a=a, c=c, gamma=ga)
+        b = a
+        al = be = 90.
+    elif style == 'beta-kw':              # monoclinic
+        got = f.volume(a, b, c, beta=be)
+        al = ga = 90.
+    elif style == 'beta-gamma-pos':
+        if 1 - math.cos(math.radians(be)) ** 2 - math.cos(math.radians(ga)) ** 2 < 0.01:
+            be, ga = 90 + (be - 90) / 3, 90 + (ga - 90) / 3     # keep the cell valid with alpha = 90
+        got = f.volume(a, b, c, None, be, ga)
+        al = 90.
     else:
         raise ModelError('unknown style %r' % style)
     want = cell_formula(a, b, c, al, be, ga)
@@ -694,7 +710,8 @@ def generate(ctx):
                     break
             a, b, c = (10 ** rng.uniform(0, 1.7) for _ in range(3))
             yield 'cell', {'a': a, 'b': b, 'c': c, 'alpha': al, 'beta': be, 'gamma': ga,
-                           'style': rng.choice(['pos6', 'pos6', 'kw6', 'kw6', 'mixed', 'kw-shuffled', 'a-kw', 'abc-pos', 'ab-pos']),
+                           'style': rng.choice(['pos6', 'pos6', 'kw6', 'kw6', 'mixed', 'kw-shuffled', 'a-kw', 'abc-pos', 'ab-pos',
+                                                'alpha-only', 'gamma-kw', 'beta-kw', 'beta-gamma-pos']),
                            'text': rng.choice(['Fe', 'H2O', 'Cf2', 'NaCl'])}
 
 
